@@ -178,16 +178,17 @@ var errSimEIO = &fs.PathError{Op: "read", Path: "<sim>", Err: syscall.EIO}
 // ---- the simulation of one run ----
 
 type streamRun struct {
-	c       *StreamCase
-	log     *EventLog
-	out     bytes.Buffer
-	writes  int
-	model   *ModelResult // expectation used by monitor M1 (nil: no M1)
-	refs    []RefResult  // per file: reference scan of the visible bytes
-	m1Fail  string
-	probes  map[string]int
-	faults  map[string]int
-	curFile int
+	c          *StreamCase
+	log        *EventLog
+	out        bytes.Buffer
+	writes     int
+	model      *ModelResult // expectation used by monitor M1 (nil: no M1)
+	refs       []RefResult  // per file: reference scan of the visible bytes
+	m1Fail     string
+	m1Verified int
+	probes     map[string]int
+	faults     map[string]int
+	curFile    int
 }
 
 type simReader struct {
@@ -344,12 +345,18 @@ func (run *streamRun) monitorM1(file, handed int) {
 	if run.model == nil || run.m1Fail != "" {
 		return
 	}
-	k := -1
-	for i, v := range run.refs[file].Values {
-		if v.End+1 <= handed {
-			k = i
+	// values are in stream order: binary search for the last one with End+1 <= handed
+	vals := run.refs[file].Values
+	lo, hi := 0, len(vals)
+	for lo < hi {
+		mid := (lo + hi) / 2
+		if vals[mid].End+1 <= handed {
+			lo = mid + 1
+		} else {
+			hi = mid
 		}
 	}
+	k := lo - 1
 	want := run.model.PrefixLen(file, k)
 	full := run.model.Text()
 	if want > len(full) {
@@ -360,8 +367,12 @@ func (run *streamRun) monitorM1(file, handed int) {
 		run.m1Fail = fmt.Sprintf("late-output: file %d: %d bytes handed out, value #%d (and one following byte) delivered, but only %d of the %d output bytes owed so far have been written", file, handed, k, len(got), want)
 		return
 	}
-	if !bytes.Equal(got[:want], []byte(full[:want])) {
-		run.m1Fail = fmt.Sprintf("late-output: output written so far diverges from expectation within the first %d bytes", want)
+	// output only grows: compare the part not verified by an earlier Read
+	if want > run.m1Verified {
+		if string(got[run.m1Verified:want]) != full[run.m1Verified:want] {
+			run.m1Fail = fmt.Sprintf("late-output: output written so far diverges from expectation within the first %d bytes", want)
+		}
+		run.m1Verified = want
 	}
 }
 
